@@ -76,7 +76,22 @@ let llock_case id count progs sched =
     | LSusp -> 9001 | LBlk -> 9002 | LRewait -> 916 in
   let sites = Buffer.create 64 in
   let first = ref true in
+  let forced s = String.length s > 0 && s.[String.length s - 1] = 'f' in
+  let view () =
+    String.concat "," (List.init tn (fun i ->
+      let t = nat_of_int i in
+      if site t = 9002 && not ((fst !c).ag t).blocked then c := step (latch_tstep true) !c (t, ONorm);
+      let l = snd !c t in
+      let pos = List.length parr.(i) - List.length l.lprog in
+      match site t with
+      | 0 -> "D" | 9002 -> Printf.sprintf "%dB" pos | s -> Printf.sprintf "%d.%d" pos s)) in
+  let views = ref [view ()] in
+  let pending = ref false in
   List.iter (fun s ->
+    if not (forced s) then begin
+      if !pending then views := view () :: !views;
+      pending := true end;
+    let s = if forced s then String.sub s 0 (String.length s - 1) else s in
     let t = nat_of_int (int_of_string s) in
     (* a blocked waiter that was resumed continues to its next hook on its own *)
     if site t = 9002 then c := step (latch_tstep true) !c (t, ONorm);
@@ -87,15 +102,17 @@ let llock_case id count progs sched =
     (* arrive_and_wait, last arriver: the critical section entered at 917 continues (lock held)
        with notified_ = true and the first notify_one: model steps AW0 and AWN in one entry *)
     if (snd !c t).lpcs = LAwNotify then c := step (latch_tstep true) !c (t, ONorm)) (split_on ',' sched);
+  if !pending then views := view () :: !views;
   let g = fst !c in
   let tries = Array.make tn "" and rets = Array.make tn 0 in
   List.iter (function
     | LTry (t, r) -> let i = int_of_nat t in tries.(i) <- (if r then "1" else "0") ^ tries.(i)
     | LRet (t, _, _) -> let i = int_of_nat t in rets.(i) <- rets.(i) + 1) g.llog;
-  Printf.printf "OUT LLOCK %s sites=%s try=%s rets=%s\n" id
+  Printf.printf "OUT LLOCK %s sites=%s try=%s rets=%s views=%s\n" id
     (if Buffer.length sites = 0 then "-" else Buffer.contents sites)
     (String.concat "|" (Array.to_list tries))
     (String.concat "," (Array.to_list (Array.map string_of_int rets)))
+    (String.concat ";" (List.rev !views))
 
 (* ---- call_once, sequential: thread 0 makes k calls, plan.[i] = the i-th run throws *)
 let oseq_case id k plan =
